@@ -23,7 +23,9 @@ Fixpoint create_guarded_b (have : bool) (l : list eff) : bool :=
 
 (* ---------------------------------------------------------------- capacity errors delete *)
 
-Definition is_cap (o : pout) : bool := match o with PInsufficient | PNotReady => true | _ => false end.
+(* the error chain contains a capacity / NodeClass-not-ready error (wrapped or not) *)
+Definition is_cap (o : pout) : bool :=
+  match o with POk => false | PFail c => has_layer YInsufficient c || has_layer YNotReady c end.
 Definition gone_or_deleting (p : option claim) : bool := match p with None => true | Some c => c_del c end.
 
 (* a capacity error is answered by Delete(claim) as the very next call, and when that call is
